@@ -429,13 +429,23 @@ func refLines(text string, w int) [][]string {
 	return lines
 }
 
+// pagerCut > 0: the text is handed to the pager in two segments, cut after that many bytes (a styled word inside
+// a sentence): the layout is that of the whole text
+var pagerCut int
+
 func pagerCase(text string, w, h int, scrolls []int) {
 	r.Count("pager_cases", 1)
 	name := fmt.Sprintf("text %q width %d height %d scrolls %v", text, w, h, scrolls)
+	if pagerCut > 0 {
+		name += fmt.Sprintf(" in two segments %q + %q", text[:pagerCut], text[pagerCut:])
+	}
 	bad := func(clause, why string) {
 		r.Violation("C19|pager|"+clause, len(text)*100+w*10+h, detail{Widget: "widgets/pager", Config: name, Why: why})
 	}
 	m := &pager.Model{Segments: []vaxis.Segment{{Text: text}}}
+	if pagerCut > 0 {
+		m.Segments = []vaxis.Segment{{Text: text[:pagerCut]}, {Text: text[pagerCut:], Style: vaxis.Style{Attribute: vaxis.AttrBold}}}
+	}
 	var all []string
 	var shown []string
 	panicked, site, msg := explore.Guard(func() {
@@ -672,6 +682,17 @@ func main() {
 							}
 						}
 					}
+					// the same text in two segments, cut at every cluster boundary
+					for cut := range prefix {
+						if cut == 0 || (prefix[cut] == '\n' && prefix[cut-1] == '\r') {
+							continue
+						}
+						pagerCut = cut
+						for w := 1; w <= 4; w++ {
+							pagerCase(prefix, w, 3, nil)
+						}
+						pagerCut = 0
+					}
 					// the window width changes between two draws of one pager
 					if l <= maxLen-1 {
 						for w1 := 1; w1 <= 4; w1++ {
@@ -709,7 +730,7 @@ func main() {
 	trans += r.Get("pager_cases")
 	r.Finish(explore.Coverage{
 		States: -1, Transitions: trans, Traces: trans, Evaluations: trans,
-		Rule:       "widgets/list.List: every operation sequence to depth n over {Down, Up, Home, End, PageDown/PageUp(h=0..3), SetItems(0..4), Draw(h=0..4)} from 0..4 items and, for 3 and 4 items, from the list scrolled to its end in a window of 1 or 2 rows; vxfw/list.Dynamic: every sequence to depth n over 20 operations (NextItem/PrevItem, j/k/arrows through CaptureEvent, wheel, SetCursor, SetPendingScroll, item replacement, Draw) for 96 configurations (item heights, gap 0/1, viewport height 1..4, gutter); pager: every text of <= m symbols over {a, 世, LF, SP, CR LF} x width 1..4 x height 1..3 x 10 scroll sequences, and (texts one symbol shorter) every pair of different widths drawn one after the other with 0, 2 or 4 scroll steps in between: the second frame must equal a fresh pager's at that width from a clamped offset. Oracles: no panic, index in range, children consecutive/contiguous/non-overlapping, selected item inside the viewport after a selection change and a draw, pager content complete (incl. an unterminated last line and wide glyphs at the row end) and offset clamped; operation sequences are not merged (state key = the path)",
+		Rule:       "widgets/list.List: every operation sequence to depth n over {Down, Up, Home, End, PageDown/PageUp(h=0..3), SetItems(0..4), Draw(h=0..4)} from 0..4 items and, for 3 and 4 items, from the list scrolled to its end in a window of 1 or 2 rows; vxfw/list.Dynamic: every sequence to depth n over 20 operations (NextItem/PrevItem, j/k/arrows through CaptureEvent, wheel, SetCursor, SetPendingScroll, item replacement, Draw) for 96 configurations (item heights, gap 0/1, viewport height 1..4, gutter); pager: every text of <= m symbols over {a, 世, LF, SP, CR LF} x width 1..4 x height 1..3 x 10 scroll sequences, the same texts handed over in two segments cut at every cluster boundary, and (texts one symbol shorter) every pair of different widths drawn one after the other with 0, 2 or 4 scroll steps in between: the second frame must equal a fresh pager's at that width from a clamped offset. Oracles: no panic, index in range, children consecutive/contiguous/non-overlapping, selected item inside the viewport after a selection change and a draw, pager content complete (incl. an unterminated last line and wide glyphs at the row end) and offset clamped; operation sequences are not merged (state key = the path)",
 		Exhaustive: true,
 		Bounds:     map[string]any{"list_depth": r.Pick(3, 4), "dynamic_depth": r.Pick(3, 4), "dynamic_configs": dynRange, "pager_max_len": r.Pick(5, 6)},
 	})
